@@ -23,6 +23,8 @@ META = {
 
 
 def run(ctx) -> None:
+    import context_probes as CP
+    CP.in_segment_probe(ctx, "C09", ctx.n(27, 600), classes=["Quadrupole", "Dipole", "Solenoid", "HorizontalCorrector", "VerticalCorrector", "Cavity", "BmadxQuadrupole", "TransverseDeflectingCavity", "BmadxDrift"], off=0.8)
     def zeros(cls, rng):
         f = {}
         if cls == "Quadrupole":
@@ -107,6 +109,9 @@ def vector_off_probe(ctx, n: int) -> None:
 
 
 def corpus_case(ctx, r: dict) -> None:
+    if r.get("kind") == "in_segment":
+        import context_probes as CP
+        return CP.in_segment_case(ctx.report, "C09", r)
     if F is not None and hasattr(F, "corpus_case"):
         F.corpus_case(ctx, r)
 
